@@ -43,8 +43,11 @@ CLAIMS["C02"] = {
     "technique": "Lean 4 theorems over endpoint + metadata models; differential worlds incl. real grpc-go; race stress",
 }
 CLAIMS["C03"] = {
-    "text": "Theorems (server and client endpoint models, every stimulus list): a stimulus addressed to one RPC changes only that RPC's stream object and emits only "
-            "frames/completions tagged with its id (locality: C03_frame_local, C03_call_local, client counterparts); rejections and stream-level errors never end the tunnel; "
+    "text": "Theorems (server and client endpoint models, every stimulus list): PROJECTION - in every reachable endpoint state, with any number of other RPCs interleaved, "
+            "an RPC's stream object is exactly the result of running the events addressed to that RPC on the fresh object its creation installed, and the frames and completions "
+            "emitted for it are exactly those of that stream-level run (C03_projection_server/_client, _events, _outputs); this lifts every stream-level theorem of C01, C07, C13, C16 "
+            "to tunnels (two worked instances: C03_lifted_server_conformance, C03_lifted_client_conformance); locality of each single stimulus (C03_frame_emits_only_own, "
+            "C03_frame_touches_only_own, C03_call_local, client counterparts); rejections and stream-level errors never end the tunnel; "
             "with flow control negotiated the receive loop never blocks behind a stream (C03_no_hol, C03_no_hol_client: fc streams are never 'unsupported/blocking'); "
             "plus two code-level premises regenerated from the sources and decided by the kernel: no blocking call is made under a receive-loop lock (C03_no_blocking_call_under_loop_lock) and no function that can run on a receive-loop goroutine performs a carrier Send (C03_receive_loops_never_send), so bounded transport buffering cannot stall a loop. Tied to the code by " +
             _W1 + " " + _SRV + " " + _CLI + " with bystander/disturber workloads; monitor: loop-blocked-with-flow-control, tunnel-ended-by-rpc. D8 is an open finding here too.",
